@@ -30,7 +30,7 @@ func inProcess(call Call) *h.Result {
 // ---- reader: the bytes are the text
 
 func decodeRead(b []byte) (ReadCase, bool) {
-	if len(b) == 0 || len(b) > 160 {
+	if len(b) == 0 || len(b) > 160 || slowLongFloat.Match(b) {
 		return ReadCase{}, false
 	}
 	return ReadCase{Texts: [][]byte{b}, Show: []string{strconv.QuoteToASCII(string(b))}}, true
